@@ -279,6 +279,33 @@ def run(prop, tier):
         states += b.distinct + bt.distinct
         transitions += b.generated + bt.generated
         extra_notes.append("MC_Builtins + Trace_Builtins: %d localization/status cases of the built-in adapters judged" % len(bobs))
+    if prop in ("C02", "C10"):
+        # behind a balancer: which address the issued cookie records / is bound to, observed through the real Listener with the
+        # PROXY protocol on (arrival histories from Admission.tla, clause in Trace_Listener)
+        import listener_check
+        lwd = os.path.join(wd, "lst")
+        os.makedirs(lwd, exist_ok=True)
+        lscs, _ = listener_check.scenarios("C15", "quick", seed, lwd)
+        lscs = [x for x in lscs if x["cfg"].get("secret") and x["cfg"].get("proxy") != "off" and any(c.get("kind") == "login" for c in x["conns"])]
+        if len(lscs) < 2:
+            raise vlib.ToolError("no listener history with a secret, the PROXY protocol and a login connection was generated")
+        linp, loutp = os.path.join(lwd, "in.ndjson"), os.path.join(lwd, "obs.ndjson")
+        vlib.write_ndjson(linp, lscs)
+        vlib.run_bin(hx, ["listener", "--in", linp, "--out", loutp, "--parallel", "8"], timeout=900)
+        lobs = vlib.read_ndjson(loutp)
+        if len(lobs) != len(lscs) or any("harnessError" in o for o in lobs):
+            raise vlib.ToolError("listener harness did not produce a record for every history: %s" % json.dumps(lobs)[:600])
+        lt = vlib.run_tlc("Trace_Listener", "Trace_Listener.cfg", lwd, workers=1, timeout=600, markers=("FAIL", "NOTCONSUMED"),
+                          env_extra={"TRACE": loutp, "PROP": prop}, java_opts=["-Xss1g", "-Dtlc2.tool.queue.IStateQueue=StateDeque"])
+        if not lt.ok or lt.marked["NOTCONSUMED"] or lt.distinct != len(lobs) + 1:
+            raise vlib.ToolError("Trace_Listener did not consume all %d records:\n%s" % (len(lobs), lt.output[-2000:]))
+        for f in lt.marked["FAIL"]:
+            o = lobs[f["line"] - 1]
+            rep.violation("%s %s [behind a balancer: proxy=%s]" % (prop, "+".join(sorted(f["clauses"])), o["cfg"].get("proxy")),
+                          {"failing_clauses": sorted(f["clauses"]), "history": lscs[f["line"] - 1], "observed": o, "seed": seed})
+        states += lt.distinct
+        transitions += lt.generated
+        extra_notes.append("real Listener with the PROXY protocol: %d arrival histories, cookie address judged by Trace_Listener" % len(lobs))
     if prop == "C01":
         # the shipped authentication adapter itself: MojangAdapter against a loopback session server (hook PASSAGE_VERIF_SESSION_SERVER);
         # an identity is reported as vouched for only if the answer carried it (Trace_SessionUrl, clause C01_IdentityOnlyFromReply)
